@@ -13,8 +13,7 @@ def run(ctx):
     ctx.mc("MC_UserFun", "MC_UserFun_pe_nocopy", workers=2, expect_violation="OK")
     ctx.mc("MC_UserFun", "MC_UserFun_defaults_head", workers=2, expect_violation="OK")
     if ctx.replay:
-        scen = [json.load(open(ctx.replay))["trace"]["scenario"]]
-        scen[0].pop("tid", None)
+        scen = ctx.replay_scenarios()
     else:
         scen = ctx.gen("Gen_C13", "Gen_C13_exh" if q else "Gen_C13_exh4", timeout=900)
         scen += ctx.gen("Gen_C13", "Gen_C13_sim", simulate="num=%d" % (150 if q else 2000), depth=14)
